@@ -233,8 +233,24 @@ fn hostile_reply(seed: u64, ans: &AnsSpec, q: &(Name, u16, u16), id: u16) -> Vec
         m.additional.retain(|x| x.rtype != T_OPT);
         m.additional.push(hostile_opt(&mut r));
     }
+    if r.chance(0.35) {
+        /* OPT pseudo-records where they do not belong: in the answer or authority section,
+         * with a root or a real owner name, flags/TTL field zero or not */
+        for _ in 0..r.range(1, 2) {
+            let opt = Rr {
+                name: if r.chance(0.7) { Name(vec![]) } else { q.0.clone() },
+                rtype: T_OPT,
+                class: *r.pick(&[0u16, 512, 1232, 4096]),
+                ttl: *r.pick(&[0u32, 0, 0, 0x8000, 0x0100_0000, u32::MAX]),
+                rdata: RData::Opt(vec![]),
+            };
+            let sec = if r.chance(0.5) { &mut m.answer } else { &mut m.authority };
+            let at = r.below(sec.len() as u64 + 1) as usize;
+            sec.insert(at, opt);
+        }
+    }
     let bytes = encode(&m, ans.compress);
-    let mut out = if r.chance(0.6) { mutate_dns(&mut r, bytes) } else { bytes };
+    let mut out = if r.chance(0.5) { mutate_dns(&mut r, bytes) } else { bytes };
     /* keep the id so that the reply is accepted as the answer */
     if out.len() >= 2 {
         out[0..2].copy_from_slice(&id.to_be_bytes());
@@ -560,6 +576,7 @@ pub async fn run_async(plan: Arc<PlanB>, opts: &ExecB) -> RunResult {
     };
     let kernel = Kernel::new(plan.seed, ifaces.clone(), Some(UP_IF), knobs, opts.trace);
     erbium_net::sim::install(Some(std::rc::Rc::new(KHandle(kernel.clone()))));
+    crate::interpose::set_qid_high(plan.qid_high);
     crate::interpose::arm(plan.seed, plan.wall_base, plan.qid_bits);
     let t0 = Instant::now();
     let nq = plan.queries.len();
@@ -1326,7 +1343,9 @@ fn is_clean(plan: &PlanB, q: &QuerySpec) -> bool {
         /* probabilistic network faults have stopped 200 s before; its own exchange is well behaved */
         return true;
     }
-    if plan.out_loss_p > 0.0 || plan.out_dup_p > 0.0 || plan.out_delay_p > 0.0 || plan.qid_bits < 16 || q.dup_in || plan.send_err_p > 0.0 {
+    /* (low-entropy query ids are not a fault: colliding ids must be renumbered, replies
+     * that answer another question ignored) */
+    if plan.out_loss_p > 0.0 || plan.out_dup_p > 0.0 || plan.out_delay_p > 0.0 || q.dup_in || plan.send_err_p > 0.0 {
         return false;
     }
     if plan.upstream_tcp.iter().any(|m| m != "accept") {
